@@ -4,7 +4,7 @@ From Coq Require Import Permutation.
 From C06 Require Import Model CaseDefs Proofs ProofsQ ProofsA ProofsC ProofsL ProofsT ProofsK.
 Open Scope Z_scope.
 
-(* SamplesContainer.Merge: if container a holds exactly (Total, Sum, Min, Max, NotExists, sample
+(* SamplesContainer.Merge (all values in Z, also beyond the int64 range of the sentinels): if container a holds exactly (Total, Sum, Min, Max, NotExists, sample
    multiset while <= 8096) of the value list va and b that of vb, then a.Merge(b) holds exactly that
    of va ++ vb — for all value lists, with or without sample collection. *)
 Theorem C06_merge_exact :
@@ -13,15 +13,16 @@ Theorem C06_merge_exact :
 Proof. exact sdesc_merge. Qed.
 Print Assumptions C06_merge_exact.
 
-(* Merge is associative and commutative with the new container as unit on everything observable:
+(* Merge is associative and commutative with the fresh container (sentinels +-2^63, any scale) as unit on
+   everything observable, for ALL values in Z — no range hypothesis, values beyond +-2^63 included:
    (a+b)+d and a+(b+d), a+b and b+a, new+a and a+new are described by the same value lists. *)
 Theorem C06_merge_monoid :
-  forall c a va na b vb nb d vd nd,
+  forall sc c a va na b vb nb d vd nd,
     sdesc c a va na -> sdesc c b vb nb -> sdesc c d vd nd ->
     sdesc c (merge_summ (merge_summ a b) d) (va ++ vb ++ vd) (na + nb + nd) /\
     sdesc c (merge_summ a (merge_summ b d)) (va ++ vb ++ vd) (na + nb + nd) /\
     sdesc c (merge_summ a b) (va ++ vb) (na + nb) /\ sdesc c (merge_summ b a) (va ++ vb) (na + nb) /\
-    sdesc c (merge_summ new_summ a) va na /\ sdesc c (merge_summ a new_summ) va na.
+    sdesc c (merge_summ (new_summ sc) a) va na /\ sdesc c (merge_summ a (new_summ sc)) va na.
 Proof. exact ProofsT.merge_monoid. Qed.
 Print Assumptions C06_merge_monoid.
 
@@ -56,15 +57,15 @@ Example C06_quantile_v0_refuted :
   exists s vs, sdesc false s vs 0 /\ vs <> [] /\ quantile_v0 s (0%N, 0%N) = MNaN
                /\ quantile s (0%N, 0%N) = MNum (-150).
 Proof.
-  exists (insert_val false (-150) new_summ), [-150]. split; [|split; [discriminate|split; reflexivity]].
+  exists (insert_val false (-150) (new_summ 0)), [-150]. split; [|split; [discriminate|split; reflexivity]].
   apply sdesc_insert. apply sdesc_new.
 Qed.
 
 (* non-vacuity: the hypotheses of C06_merge_exact / C06_quantile_exact are met by real containers:
    two fractions' containers with collected samples, merged, median = element 1 of [1;2;3] *)
 Example C06_nonvacuous :
-  let a := insert_val true 3 (insert_val true 1 new_summ) in
-  let b := insert_val true 2 new_summ in
+  let a := insert_val true 3 (insert_val true 1 (new_summ 0)) in
+  let b := insert_val true 2 (new_summ 0) in
   sdesc true (merge_summ a b) ([3; 1] ++ [2]) (0 + 0) /\ quantile (merge_summ a b) (1%N, 1%N) = MNum 2.
 Proof.
   split; [|reflexivity].
@@ -152,7 +153,7 @@ Print Assumptions C06_bucket_value_exact.
 (* non-vacuity of the aggregation theorems: two fractions, avg with group over a time series; the
    hypotheses hold and the merged bin of group 1 in bucket 1000 is the one described by the theorem *)
 Example C06_agg_nonvacuous :
-  let q := Query 0 5000 FAvg true 1000 [] 9 in
+  let q := Query 0 5000 FAvg true 1000 [] 9 0 in
   let t := Node (Leaf [Doc 1200 true (Some 1%N) (Some 8); Doc 1300 true None (Some 3)])
                 (Leaf [Doc 1900 true (Some 1%N) (Some (-2)); Doc 1950 false (Some 1%N) (Some 100)]) in
   is_field_func (q_func q) = true /\
@@ -162,7 +163,7 @@ Example C06_agg_nonvacuous :
 Proof. repeat split. Qed.
 
 Example C06_count_nonvacuous :
-  let q := Query 0 5000 FCount false 0 [] 9 in
+  let q := Query 0 5000 FCount false 0 [] 9 0 in
   let t := Node (Leaf [Doc 1200 true (Some 1%N) None; Doc 1300 true None None]) (Leaf [Doc 1900 true (Some 1%N) None]) in
   ProofsC.no_netok_group q (ProofsT.selected_docs q t) /\
   CaseDefs.bin_count q (0%N, 1%N) (ProofsT.selected_docs q t) = 2%N /\
@@ -177,7 +178,7 @@ Example C06_merge_order_nonvacuous :
   let d3 := Doc 1900 true (Some 1%N) (Some (-2)) in
   let t1 := Node (Leaf [d1; d2]) (Leaf [d3]) in let t2 := Node (Node (Leaf [d3]) (Leaf [d1])) (Leaf [d2]) in
   Permutation (tree_docs t1) (tree_docs t2) /\
-  lookup (0%N, 1%N) (a_bins (eval_tree (Query 0 5000 FSum true 0 [] 9) t2)) = Some (Summ (-2) 8 6 2 0 [] false).
+  lookup (0%N, 1%N) (a_bins (eval_tree (Query 0 5000 FSum true 0 [] 9 0) t2)) = Some (Summ (-2) 8 6 2 0 [] false).
 Proof.
   split; [|reflexivity]. simpl. apply Permutation_sym. apply (Permutation_cons_app [_; _] [] _). apply Permutation_refl.
 Qed.
@@ -188,3 +189,22 @@ Qed.
 Theorem C06_aggbin_key_codec : forall mid tok, from_key (to_key mid tok) = Some (mid, tok).
 Proof. exact ProofsK.key_codec. Qed.
 Print Assumptions C06_aggbin_key_codec.
+
+(* Why Merge special-cases an empty destination (Total = 0) instead of relying on the sentinels a fresh
+   container starts with: for a value beyond 2^63 (10^19) the collapsed variant merge_summ_v0 leaves the
+   sentinel 2^63 as Min, the real Merge gives the value.  (merge_summ_v0 is NOT the code in /repo.) *)
+Example C06_merge_v0_refuted :
+  exists x vs, sdesc false x vs 0 /\ vs <> [] /\
+    s_min (merge_summ_v0 (new_summ 0) x) = 2 ^ 63 /\ s_min (merge_summ_v0 (new_summ 0) x) <> Proofs.list_min vs /\
+    s_min (merge_summ (new_summ 0) x) = Proofs.list_min vs.
+Proof. exact ProofsT.merge_v0_refuted. Qed.
+
+(* non-vacuity beyond the int64 range: two fractions whose values all lie above 2^63 / below -2^63,
+   merged into fresh containers (Leaf [] = the Searcher's empty total): min and max are the values *)
+Example C06_huge_nonvacuous :
+  let q := Query 0 5000 FMin false 0 [] 9 0 in
+  let t := Node (Node (Leaf []) (Leaf [Doc 1200 true None (Some (10 ^ 19)); Doc 1300 true None (Some (2 ^ 64))]))
+                (Leaf [Doc 1900 true None (Some (3 * 10 ^ 19))]) in
+  lookup (0%N, 0%N) (a_bins (eval_tree q t)) = Some (Summ (10 ^ 19) (3 * 10 ^ 19) (4 * 10 ^ 19 + 2 ^ 64) 3 0 [] false) /\
+  (2 ^ 63 < 10 ^ 19).
+Proof. split; [vm_compute; reflexivity|vm_compute; reflexivity]. Qed.
